@@ -190,7 +190,7 @@ _MAPPER_RULE = ("explicit-state breadth-first search over call histories on the 
                 "over simulated physical memory: state = concrete content of all page-table frames + allocator pool (+ deviations used); ~250 actions "
                 "per state (map_to_with_table_flags/map_to/identity_map x 3 sizes x frames x leaf flags (incl. one value with every flag bit but HUGE_PAGE) x 4 parent-flag values (two of them incomparable) x 5 allocator failure schedules, unmap, "
                 "update_flags, set_flags_p4/p3/p2_entry, clean_up, clean_up_addr_range x 12 ranges); bounds are unions of (depth, deviation) pairs, a deviation "
-                "being one non-default argument; 21 configurations (implementation x physical base x allocator policy x page alphabet A nesting / B edges / C related indices). "
+                "being one non-default argument; 21 configurations (implementation x physical base x allocator policy x page alphabet A nesting / B edges / C related indices) in the overflow-checking profile plus 5 of them rebuilt without overflow checks / debug assertions. "
                 "After every transition: outcome class vs the abstract model R1 (Appendix A of DESIGN.md), full hardware-style traversal R2 of raw memory == R1, "
                 "parent-entry flags, allocation/deallocation logs, access monitor; in every new state: translate/translate_addr/translate_page on the probe addresses == R1 == single-address hardware walk.")
 
